@@ -89,6 +89,36 @@ func main() {
 		out.Line("wq %d %d %v", p, w, gpbft.VerifHasWeakQuorum(p, w))
 	}
 
+	// 3b. tables of a few very large int64-sized powers (total < 2^63)
+	for i := 0; i < 200; i++ {
+		k := 2 + rng.Intn(4)
+		entries := make(gpbft.PowerEntries, k)
+		strs := make([]string, k)
+		for j := range entries {
+			pw := new(big.Int).Lsh(big.NewInt(int64(1+rng.Intn(3))), uint(46+rng.Intn(13)))
+			if rng.Chance(1, 3) {
+				pw = big.NewInt(int64(1 + rng.Intn(1000)))
+			}
+			entries[j] = gpbft.PowerEntry{ID: gpbft.ActorID(j + 1), Power: gpbft.StoragePower{Int: pw}, PubKey: gpbft.PubKey{1}}
+			strs[j] = pw.String()
+		}
+		sc, tot, err := entries.Scaled()
+		if err != nil {
+			out.Line("scaled %s => err", join(strs))
+		} else {
+			out.Line("scaled %s => %s %d", join(strs), vh.JoinInts(sc), tot)
+		}
+		// the same table through PowerTable.Add (rescale path)
+		pt := gpbft.NewPowerTable()
+		if err := pt.Add(entries...); err == nil {
+			ordered := make([]string, len(pt.Entries))
+			for j, e := range pt.Entries {
+				ordered[j] = e.Power.String()
+			}
+			out.Line("scaled %s => %s %d", join(ordered), vh.JoinInts(pt.ScaledPower), pt.ScaledTotal)
+		}
+	}
+
 	// 4. scaling of random big-integer tables
 	m := 300
 	if thorough {
@@ -106,7 +136,9 @@ func main() {
 		strs := make([]string, k)
 		for j := range entries {
 			var pw *big.Int
-			switch rng.Intn(6) {
+			switch rng.Intn(7) {
+			case 6: // large but int64-sized: 65535*power overflows int64 while the total still fits
+				pw = new(big.Int).Lsh(big.NewInt(int64(1+rng.Intn(7))), uint(44+rng.Intn(15)))
 			case 0: // dust
 				pw = big.NewInt(int64(1 + rng.Intn(3)))
 			case 1: // huge
